@@ -20,7 +20,7 @@ PROP = {  # commit subject keyword -> property
     "temporary register after the last instruction": "C05", "running out of general registers": "C05",
     "three-byte VEX prefix set pp=66": "C12",
     "VEX encoding of the float compare": "C12",
-    "leaked the compiler object": "C16", "double-checked locking": "C08",
+    "leaked the compiler object": "C16", "leaked the previous type name": "C16", "double-checked locking": "C08",
     "running out of compiler table space": "C05", "stored -1 for an unknown operand name": "C05", "alloc_regs[-1]": "C05",
     "aborted (ORC_ASSERT) on a scalar constant": "C05", "wider than ORC_MAX_VAR_SIZE": "C05", "c64x-c back end indexed": "C05",
     "an accumulator used as a source operand": "C05", "constant table (ORC_N_CONSTANTS": "C05",
